@@ -254,6 +254,13 @@ func (h *HttpServer) handleUnary(w http.ResponseWriter, r *http.Request) {
 			h.logIPCWriteErr("void-response", info.Name, err)
 			handlerErr = err
 		}
+		// The wire cap is hard for every unary response, a void one included
+		// (its body is the handler's client logs plus the empty result).
+		if capErr := enforceResponseBudgets(info.Name, int64(buf.Len()), 0, h.maxResponseBytes, 0); capErr != nil {
+			handlerErr = capErr
+			h.writeUnaryCapError(w, info, req.RequestID, nil, capErr)
+			return
+		}
 		h.writeArrow(w, http.StatusOK, buf.Bytes())
 		return
 	}
